@@ -640,13 +640,13 @@ int main(int argc, char **argv) {
         F.removeFnAttr(Attribute::NoInline); F.removeFnAttr(Attribute::OptimizeNone);
         F.addFnAttr(Attribute::AlwaysInline); ++nleaves; leafnames.push_back(F.getName().str());
       }
-      if (!known.empty())
-        for (Function &F : *M)
-          if (!F.isDeclaration() && F.hasLocalLinkage() && !pure.count(&F) && !known.count(F.getName().str())) {
-            F.removeFnAttr(Attribute::NoInline); F.removeFnAttr(Attribute::OptimizeNone);
-            F.addFnAttr(Attribute::AlwaysInline); foldednames.push_back(F.getName().str());
-          }
     }
+    if (!known.empty())
+      for (Function &F : *M)
+        if (!F.isDeclaration() && F.hasLocalLinkage() && !F.hasFnAttribute(Attribute::AlwaysInline) && !known.count(F.getName().str())) {
+          F.removeFnAttr(Attribute::NoInline); F.removeFnAttr(Attribute::OptimizeNone);
+          F.addFnAttr(Attribute::AlwaysInline); foldednames.push_back(F.getName().str());
+        }
     ModulePassManager MPM;
     std::string pipe = std::string("always-inline,") + fpipe;
     if (auto e = PB.parsePassPipeline(MPM, pipe)) { errs() << toString(std::move(e)) << "\n"; return 2; }
